@@ -93,8 +93,8 @@ def parseOp (ws : List String) : Option (Option Op) :=
 
 def stepLine (st : St) (line : String) : St × String :=
   match words line with
-  | ["create", v] =>
-    let s := State.create (v.toNat?.getD 4)
+  | ["create", _v] =>
+    let s := State.create
     ({ s := s, live := true }, "ok | " ++ showTable s)
   | ["snap", _] => (st, dump st.s ++ " | " ++ showTable st.s)
   | ws =>
@@ -107,6 +107,6 @@ def stepLine (st : St) (line : String) : St × String :=
     | none => (st, "bad-op | -")
 
 def main : IO Unit := do
-  lineLoop (← IO.getStdin) (← IO.getStdout) ({ s := State.create 4, live := false } : St) stepLine
+  lineLoop (← IO.getStdin) (← IO.getStdout) ({ s := State.create, live := false } : St) stepLine
 
 end CfbVerif.Drv.Api
